@@ -101,3 +101,13 @@ func (t *TxJsonMarshalizer) Marshal(obj interface{}) (r []byte, err error)
   ensures  chain-id-read-back: err == nil && isDto(obj) && validUTF8(dto(obj).ChainID) ==> jChainID(str(r)) == dto(obj).ChainID
   assigns  nothing
 @*/
+
+/*@
+// [C18] the constructor wraps exactly the given marshalizer with exactly the given delta: a wrapper around a wrapper checks
+// the buffer against BOTH deltas (each level runs its own length check), so the effective bound is the smaller one
+func NewSizeCheckUnmarshalizer(m Marshalizer, maxDelta uint32) (r Marshalizer)
+  ensures  is-a-size-checker: typeIs(r, ptr_sizeCheckUnmarshalizer) && fresh(payload(r, ptr_sizeCheckUnmarshalizer))
+  ensures  wraps-the-given-marshalizer: payload(r, ptr_sizeCheckUnmarshalizer).Marshalizer == m
+  ensures  checks-with-the-given-delta: payload(r, ptr_sizeCheckUnmarshalizer).acceptedDelta == maxDelta
+  assigns  nothing
+@*/
